@@ -1,1 +1,454 @@
 // Kani harnesses compiled inside rs-matter/src/pairing/qr.rs (module `verif_kani`).
+
+mod c17 {
+    use super::*;
+
+    // ---- Verhoeff check from its definition: multiplication in the dihedral group D5 and the
+    // ---- position-dependent permutation sigma^i, sigma = (1 5 7 6 2 8 3 0 9 4). Tables are
+    // ---- computed at compile time from that definition (they are not copied from the crate).
+    const fn build_d5() -> [[u8; 10]; 10] {
+        let mut t = [[0u8; 10]; 10];
+        let mut j = 0;
+        while j < 10 {
+            let mut k = 0;
+            while k < 10 {
+                // element = r^(x % 5) s^(x / 5), with s r = r^-1 s
+                let (jr, js) = (j % 5, j / 5);
+                let (kr, ks) = (k % 5, k / 5);
+                let rot = if js == 0 { (jr + kr) % 5 } else { (jr + 5 - kr) % 5 };
+                t[j][k] = ((js ^ ks) * 5 + rot) as u8;
+                k += 1;
+            }
+            j += 1;
+        }
+        t
+    }
+
+    const fn build_perm() -> [[u8; 10]; 8] {
+        const SIGMA: [u8; 10] = [1, 5, 7, 6, 2, 8, 3, 0, 9, 4];
+        let mut t = [[0u8; 10]; 8];
+        let mut n = 0;
+        while n < 10 {
+            t[0][n] = n as u8;
+            n += 1;
+        }
+        let mut i = 1;
+        while i < 8 {
+            let mut n = 0;
+            while n < 10 {
+                t[i][n] = t[i - 1][SIGMA[n] as usize];
+                n += 1;
+            }
+            i += 1;
+        }
+        t
+    }
+
+    const D5: [[u8; 10]; 10] = build_d5();
+    const PERM: [[u8; 10]; 8] = build_perm();
+
+    /// `dg` = numeric digits, the last one being the check digit.
+    fn verhoeff_ok(dg: &[u8]) -> bool {
+        let mut c = 0usize;
+        let mut i = 0;
+        while i < dg.len() {
+            let digit = dg[dg.len() - 1 - i] as usize;
+            c = D5[c][PERM[i % 8][digit] as usize] as usize;
+            i += 1;
+        }
+        c == 0
+    }
+
+    fn dec(dg: &[u8], off: usize, n: usize) -> u32 {
+        let mut v = 0u32;
+        let mut i = 0;
+        while i < n {
+            v = v * 10 + dg[off + i] as u32;
+            i += 1;
+        }
+        v
+    }
+
+    struct Expect {
+        check_ok: bool,
+        lead_ok: bool,
+        flag_ok: bool,
+        groups_ok: bool,
+        short_disc: u8,
+        passcode: u32,
+        vid: u16,
+        pid: u16,
+    }
+
+    /// What the spec says an 11-digit (`!long`) / 21-digit (`long`) digit string means.
+    fn expect(dg: &[u8], long: bool) -> Expect {
+        let g1 = dec(dg, 1, 5);
+        let g2 = dec(dg, 6, 4);
+        let (vid, pid) = if long { (dec(dg, 10, 5), dec(dg, 15, 5)) } else { (0, 0) };
+        Expect {
+            check_ok: verhoeff_ok(dg),
+            lead_ok: dg[0] <= 7,
+            flag_ok: ((dg[0] >> 2) & 1 == 1) == long,
+            groups_ok: g1 <= 0xFFFF && g2 <= 0x1FFF && vid <= 0xFFFF && pid <= 0xFFFF,
+            short_disc: ((dg[0] & 3) << 2) | ((g1 >> 14) & 3) as u8,
+            passcode: (g2 << 14) | (g1 & 0x3FFF),
+            vid: vid as u16,
+            pid: pid as u16,
+        }
+    }
+
+    fn check_against(r: &Result<QrPayload<'_, ()>, Error>, e: &Expect, long: bool) {
+        // "codes with a wrong check digit or out-of-range fields are refused"
+        kani::assert(e.check_ok || r.is_err(), "C17.manual.wrong_check_digit_refused");
+        kani::assert(e.lead_ok || r.is_err(), "C17.manual.leading_digit_above_7_refused");
+        kani::assert(e.flag_ok || r.is_err(), "C17.manual.vid_pid_flag_inconsistent_with_length_refused");
+        kani::assert(e.groups_ok || r.is_err(), "C17.manual.out_of_range_digit_group_refused");
+        // and nothing else is: every well-formed code decodes
+        kani::assert(
+            r.is_ok() == (e.check_ok && e.lead_ok && e.flag_ok && e.groups_ok),
+            "C17.manual.accepted_iff_wellformed"
+        );
+        match r {
+            Ok(p) => {
+                kani::assert(p.short_discriminator() == e.short_disc, "C17.manual.decodes_short_discriminator");
+                kani::assert(p.passcode() == e.passcode, "C17.manual.decodes_passcode");
+                kani::assert(
+                    p.vid_pid() == if long { Some((e.vid, e.pid)) } else { None },
+                    "C17.manual.decodes_vid_pid"
+                );
+                kani::assert(
+                    p.comm_flow() == if long { None } else { Some(CommFlowType::Standard) },
+                    "C17.manual.flow_implied_by_variant"
+                );
+                kani::assert(
+                    p.short_discriminator() < 16 && p.passcode() < (1 << 27),
+                    "C17.manual.accepted_fields_in_range"
+                );
+                kani::assert(
+                    p.commissionable_filter().short_discriminator == Some(e.short_disc)
+                        && p.commissionable_filter().discriminator.is_none(),
+                    "C17.manual.filter_uses_short_discriminator"
+                );
+            }
+            Err(err) => kani::assert(err.code() == ErrorCode::InvalidData, "C17.manual.err_is_invalid_data"),
+        }
+    }
+
+    /// The decoder on EVERY string of exactly `L` decimal digits.
+    fn check_manual<const L: usize>() {
+        let dg: [u8; L] = kani::any();
+        let mut s = [0u8; L];
+        let mut i = 0;
+        while i < L {
+            kani::assume(dg[i] <= 9);
+            s[i] = b'0' + dg[i];
+            i += 1;
+        }
+        // SAFETY: ASCII digits
+        let code = unsafe { core::str::from_utf8_unchecked(&s) };
+        let long = L == 21;
+
+        let r = QrPayload::<()>::parse_pairing_code(code);
+
+        let e = expect(&dg, long);
+        check_against(&r, &e, long);
+
+        kani::cover!(r.is_ok(), "a well-formed code");
+        kani::cover!(r.is_ok() && e.passcode == (1 << 27) - 1 && e.short_disc == 15, "largest fields");
+        kani::cover!(!e.check_ok && e.lead_ok && e.flag_ok && e.groups_ok, "only the check digit is wrong");
+        kani::cover!(e.check_ok && !e.lead_ok, "good check digit, leading digit 8 or 9");
+        kani::cover!(e.check_ok && e.lead_ok && !e.flag_ok, "good check digit, flag disagrees with the length");
+        kani::cover!(e.check_ok && e.lead_ok && e.flag_ok && !e.groups_ok, "good check digit, a digit group out of range");
+    }
+
+    // TIER: thorough
+    // KIND: complete (all 10^11 strings of 11 decimal digits; 11 is the fixed length of the format)
+    #[kani::proof]
+    #[kani::unwind(14)]
+    fn c17_manual_code_parse_11_digits() {
+        check_manual::<11>();
+    }
+
+    /// The spec's encoder (there is no long-form encoder in the crate): every legal
+    /// discriminator / passcode / VID / PID, encoded per 5.1.4.1, decodes to itself.
+    fn reference_roundtrip<const L: usize>() {
+        let long = L == 21;
+        let disc: u16 = kani::any();
+        let pass: u32 = kani::any();
+        let vid: u16 = kani::any();
+        let pid: u16 = kani::any();
+        kani::assume(disc < (1 << 12) && pass < (1 << 27));
+
+        let mut dg = [0u8; L];
+        dg[0] = ((long as u8) << 2) | (disc >> 10) as u8;
+        let g1 = (((disc & 0x300) as u32) << 6) | (pass & 0x3FFF);
+        let g2 = pass >> 14;
+        let mut put = |off: usize, n: usize, mut v: u32| {
+            let mut i = n;
+            while i > 0 {
+                dg[off + i - 1] = (v % 10) as u8;
+                v /= 10;
+                i -= 1;
+            }
+        };
+        put(1, 5, g1);
+        put(6, 4, g2);
+        if long {
+            put(10, 5, vid as u32);
+            put(15, 5, pid as u32);
+        }
+        // the check digit is the one digit that makes the whole string valid
+        let chk: u8 = kani::any();
+        kani::assume(chk <= 9);
+        dg[L - 1] = chk;
+        kani::assume(verhoeff_ok(&dg));
+
+        let mut s = [0u8; L];
+        let mut i = 0;
+        while i < L {
+            s[i] = b'0' + dg[i];
+            i += 1;
+        }
+        let code = unsafe { core::str::from_utf8_unchecked(&s) };
+        let res_ = QrPayload::<()>::parse_pairing_code(code);
+        kani::assert(res_.is_ok(), "C17.manual.roundtrip.spec_encoding_accepted");
+        if let Ok(p) = res_ {
+            kani::assert(p.short_discriminator() == (disc >> 8) as u8, "C17.manual.roundtrip.short_discriminator");
+            kani::assert(p.passcode() == pass, "C17.manual.roundtrip.passcode");
+            kani::assert(
+                p.vid_pid() == if long { Some((vid, pid)) } else { None },
+                "C17.manual.roundtrip.vid_pid"
+            );
+        }
+        kani::cover!(pass == 99999998 && disc == 0xFFF, "largest legal passcode and discriminator");
+        kani::cover!(vid == 0xFFFF && pid == 0xFFFF, "largest ids");
+    }
+
+    // TIER: thorough
+    // KIND: complete (all 12-bit discriminators x all 27-bit passcodes)
+    #[kani::proof]
+    #[kani::unwind(14)]
+    fn c17_manual_code_spec_roundtrip_short() {
+        reference_roundtrip::<11>();
+    }
+
+    /// Long form of the spec's encoding (all VIDs and PIDs): accepted and decoded to the same ids.
+    // TIER: thorough
+    // KIND: bounded (all VID x all PID; discriminator and passcode fixed to 0xABC / 20202021)
+    #[kani::proof]
+    #[kani::unwind(24)]
+    fn c17_manual_code_spec_roundtrip_long() {
+        let (disc, pass): (u16, u32) = (0xABC, 20202021);
+        let vid: u16 = kani::any();
+        let pid: u16 = kani::any();
+        let mut dg = [0u8; 21];
+        dg[0] = (1 << 2) | (disc >> 10) as u8;
+        let g1 = (((disc & 0x300) as u32) << 6) | (pass & 0x3FFF);
+        let g2 = pass >> 14;
+        let mut put = |off: usize, n: usize, mut v: u32| {
+            let mut i = n;
+            while i > 0 {
+                dg[off + i - 1] = (v % 10) as u8;
+                v /= 10;
+                i -= 1;
+            }
+        };
+        put(1, 5, g1);
+        put(6, 4, g2);
+        put(10, 5, vid as u32);
+        put(15, 5, pid as u32);
+        let chk: u8 = kani::any();
+        kani::assume(chk <= 9);
+        dg[20] = chk;
+        kani::assume(verhoeff_ok(&dg));
+
+        let mut s = [0u8; 21];
+        let mut i = 0;
+        while i < 21 {
+            s[i] = b'0' + dg[i];
+            i += 1;
+        }
+        let code = unsafe { core::str::from_utf8_unchecked(&s) };
+        let res_ = QrPayload::<()>::parse_pairing_code(code);
+        kani::assert(res_.is_ok(), "C17.manual.roundtrip_long.spec_encoding_accepted");
+        if let Ok(p) = res_ {
+            kani::assert(p.short_discriminator() == (disc >> 8) as u8, "C17.manual.roundtrip_long.short_discriminator");
+            kani::assert(p.passcode() == pass, "C17.manual.roundtrip_long.passcode");
+            kani::assert(p.vid_pid() == Some((vid, pid)), "C17.manual.roundtrip_long.vid_pid");
+            kani::assert(p.comm_flow().is_none(), "C17.manual.roundtrip_long.flow_not_determined");
+        }
+        kani::cover!(vid == 0xFFFF && pid == 0xFFFF, "largest ids");
+        kani::cover!(vid == 0 && pid == 0, "smallest ids");
+    }
+
+    /// The decoder on ARBITRARY ASCII text of 13 characters (13 = the printed form
+    /// `dddd-dddd-ddd`): a value or an error; separators are transparent wherever they stand;
+    /// anything that is not 11 digits after removing `-` and ` ` is refused.
+    // TIER: thorough
+    // KIND: bounded (input = 13 arbitrary ASCII characters)
+    #[kani::proof]
+    #[kani::unwind(16)]
+    fn c17_manual_code_parse_arbitrary_text() {
+        const C: usize = 13;
+        let chars: [u8; C] = kani::any();
+        let mut dg = [0u8; 11];
+        let mut nd = 0usize;
+        let mut other = false;
+        let mut i = 0;
+        while i < C {
+            kani::assume(chars[i] < 128);
+            let c = chars[i];
+            if c.is_ascii_digit() {
+                if nd < 11 {
+                    dg[nd] = c - b'0';
+                }
+                nd += 1;
+            } else if c != b'-' && c != b' ' {
+                other = true;
+            }
+            i += 1;
+        }
+        let code = unsafe { core::str::from_utf8_unchecked(&chars) };
+
+        let r = QrPayload::<()>::parse_pairing_code(code);
+
+        kani::assert(!other || r.is_err(), "C17.manual.text.foreign_character_refused");
+        kani::assert(nd == 11 || r.is_err(), "C17.manual.text.wrong_digit_count_refused");
+        if !other && nd == 11 {
+            // separators are transparent: same verdict and fields as the bare digits
+            let e = expect(&dg, false);
+            check_against(&r, &e, false);
+        }
+        kani::cover!(r.is_ok() && chars[4] == b'-' && chars[9] == b'-', "printed form accepted");
+        kani::cover!(r.is_ok() && chars[0] == b' ' && chars[12] == b' ', "separators at the ends accepted");
+        kani::cover!(other && nd == 11, "11 digits and a foreign character");
+        kani::cover!(!other && nd == 12, "12 digits");
+        kani::cover!(!other && nd == 0, "separators only");
+    }
+
+    // ------------------------------------------------------------------------------------
+    // QR payload
+    // ------------------------------------------------------------------------------------
+
+    const FLOWS: [CommFlowType; 3] = [CommFlowType::Standard, CommFlowType::UserIntent, CommFlowType::Custom];
+
+    /// The 88 payload bits as one integer, LSB = first bit.
+    fn pack(version: u8, vid: u16, pid: u16, flow: u8, caps: u8, disc: u16, pass: u32) -> u128 {
+        (version as u128)
+            | (vid as u128) << 3
+            | (pid as u128) << 19
+            | (flow as u128) << 35
+            | (caps as u128) << 37
+            | (disc as u128) << 45
+            | (pass as u128) << 57
+    }
+
+    /// Encoder half of the QR round trip, bit level. For all versions (3 bits), VIDs, PIDs, flows,
+    /// defined discovery capabilities, discriminators (12 bits) and passcodes (27 bits), without
+    /// optional TLV data / serial number, `emit_all_bits` yields exactly the 88 bits of the spec's
+    /// packing, first bit = least significant. (`emit_chars` then cuts them into 24/24/24/16-bit
+    /// chunks and hands each to `base38::encode_bits`, whose contract is `c17_base38_encode_bits`.
+    /// The chunking glue inside `emit_chars` is a local iterator type and could not be reached
+    /// separately; the decoder half did not close - see the report.)
+    // TIER: thorough
+    // KIND: bounded (payload without optional TLV data and with an empty serial number: 88 bits)
+    #[kani::proof]
+    #[kani::unwind(92)]
+    fn c17_qr_emit_bits_are_spec_packing() {
+        let version: u8 = kani::any();
+        let vid: u16 = kani::any();
+        let pid: u16 = kani::any();
+        let fi: usize = kani::any();
+        let caps: u8 = kani::any();
+        let disc: u16 = kani::any();
+        let pass: u32 = kani::any();
+        kani::assume(version < 8 && fi < 3 && caps < 8 && disc < (1 << 12) && pass < (1 << 27));
+
+        let p = QrPayload {
+            version,
+            discovery_capabilities: DiscoveryCapabilities::from_bits_truncate(caps),
+            comm_flow: FLOWS[fi],
+            comm_data: BasicCommData {
+                password: pass.to_le_bytes().into(),
+                discriminator: disc,
+            },
+            vid,
+            pid,
+            serial_no: "",
+            optional_data: no_optional_data as NoOptionalData,
+        };
+
+        let mut got: u128 = 0;
+        let mut n = 0u32;
+        let mut errors = 0;
+        for bit in p.emit_all_bits() {
+            match bit {
+                Ok(b) => {
+                    if n < 128 {
+                        got |= (b as u128) << n;
+                    }
+                    n += 1;
+                }
+                Err(_) => errors += 1,
+            }
+        }
+        kani::assert(errors == 0, "C17.qr.emit.no_error");
+        kani::assert(n == 88, "C17.qr.emit.bit_count");
+        kani::assert(got == pack(version, vid, pid, fi as u8, caps, disc, pass), "C17.qr.emit.bit_layout");
+
+        kani::cover!(pass == 99999998 && disc == 0xFFF && vid == 0xFFF4 && fi == 2 && caps == 7, "large legal values");
+        kani::cover!(version == 7, "largest version");
+    }
+
+    /// `BitReader::read`: LSB-first bit slices of the byte string, or an error when fewer bits
+    /// are left; the position advances by exactly the bits read.
+    // TIER: quick
+    // KIND: bounded (data <= 6 bytes; the read width 0..=32 is the documented capacity)
+    #[kani::proof]
+    #[kani::unwind(34)]
+    fn c17_qr_bitreader_read() {
+        let data: [u8; 6] = kani::any();
+        let dlen: usize = kani::any();
+        let pos: usize = kani::any();
+        let len: usize = kani::any();
+        kani::assume(dlen <= 6 && pos <= dlen * 8 && len <= 32);
+        let mut rd = BitReader { data: &data[..dlen], pos };
+
+        let r = rd.read(len);
+
+        let enough = len <= dlen * 8 - pos;
+        kani::assert(r.is_ok() == enough, "C17.bitreader.ok_iff_enough_bits");
+        match r {
+            Ok(v) => {
+                let mut all = 0u64;
+                let mut i = 0;
+                while i < 6 {
+                    all |= (data[i] as u64) << (8 * i);
+                    i += 1;
+                }
+                let want = (all >> pos) & ((1u64 << len) - 1);
+                kani::assert(v as u64 == want, "C17.bitreader.value_is_lsb_first_slice");
+                kani::assert(rd.pos == pos + len, "C17.bitreader.advances_by_len");
+            }
+            Err(e) => {
+                kani::assert(e.code() == ErrorCode::InvalidData, "C17.bitreader.err_is_invalid_data");
+                kani::assert(rd.pos == pos, "C17.bitreader.refusal_consumes_nothing");
+            }
+        }
+        kani::cover!(enough && len == 32 && pos % 8 == 5, "unaligned 32-bit read");
+        kani::cover!(enough && len == 0, "empty read");
+        kani::cover!(!enough && pos < dlen * 8, "partially available");
+    }
+
+    // TIER: quick
+    // KIND: complete
+    #[kani::proof]
+    fn c17_qr_flow_from_bits() {
+        let b: u8 = kani::any();
+        match CommFlowType::from_bits(b) {
+            Ok(f) => kani::assert(f as u8 == b && b <= 2, "C17.qr.flow.known_values_decode_to_themselves"),
+            Err(e) => kani::assert(b > 2 && e.code() == ErrorCode::InvalidData, "C17.qr.flow.unknown_refused"),
+        }
+        kani::cover!(b == 3, "reserved flow value");
+    }
+}
